@@ -183,6 +183,60 @@ func govcRemovalCancels() string {
 	return ""
 }
 
+// govcRaceStress exercises the public API concurrently (the driver runs under the race detector: a data race
+// inside the package is reported by the harness from the detector's output).
+func govcRaceStress() string {
+	k := NewKeyed[string, int](func(key string) (Routine, int) {
+		return func(ctx context.Context) error {
+			select {
+			case <-ctx.Done():
+				return nil
+			case <-time.After(time.Millisecond):
+				return errors.New("boom")
+			}
+		}, 1
+	}, WithReleaseDelay[string, int](2*time.Millisecond), WithExitCb[string, int](func(key string, routine Routine, data int, err error) {}),
+		WithRetry[string, int](&backoff.Backoff{BackoffKind: backoff.BackoffKind_BackoffKind_CONSTANT, Constant: &backoff.Constant{Interval: 1}}))
+	ctx, cancel := context.WithCancel(context.Background())
+	defer cancel()
+	k.SetContext(ctx, true)
+	stop := make(chan struct{})
+	done := make(chan struct{}, 8)
+	keys := []string{"a", "b", "c"}
+	worker := func(f func(i int)) {
+		go func() {
+			for i := 0; ; i++ {
+				select {
+				case <-stop:
+					done <- struct{}{}
+					return
+				default:
+					f(i)
+				}
+			}
+		}()
+	}
+	worker(func(i int) { k.SetKey(keys[i%3], i%2 == 0) })
+	worker(func(i int) { k.RemoveKey(keys[i%3]) })
+	worker(func(i int) { k.RestartRoutine(keys[i%3]) })
+	worker(func(i int) { k.ResetRoutine(keys[i%3]) })
+	worker(func(i int) { k.SyncKeys(keys[:i%4], i%2 == 0) })
+	worker(func(i int) { k.GetKeys(); k.GetKey(keys[i%3]); k.GetKeysWithData() })
+	worker(func(i int) {
+		if i%7 == 0 {
+			k.ClearContext()
+		}
+		k.SetContext(ctx, i%2 == 0)
+		k.RestartAllRoutines()
+	})
+	time.Sleep(400 * time.Millisecond)
+	close(stop)
+	for i := 0; i < 7; i++ {
+		<-done
+	}
+	return ""
+}
+
 // govcKeySetModel runs pseudo-random sequences of key-set operations (restricted to the given operations)
 // against the real Keyed and against the key set the property describes, with and without a release delay,
 // with and without a context; it returns the first sequence whose return values or key set differ.
@@ -359,6 +413,8 @@ func TestGovcReplay(t *testing.T) {
 	model := func(ops ...string) func() string { return func() string { return govcKeySetModel(ops) } }
 	var scenarios []func() string
 	switch {
+	case has("#own.", "#call.holds", "#lock.", "#block.locked"):
+		scenarios = []func() string{govcRaceStress}
 	case has("keepretry"):
 		scenarios = []func() string{govcSetKeyKeepsRetry}
 	case has("pendingkept"):
